@@ -113,6 +113,84 @@ static void gzip_writer(void)
 								}
 }
 
+/* the header writer's SOURCE ranges: name, comment and extra each sit in a mapping of exactly name_buf_len / comment_buf_len / extra_len
+ * bytes that ends at an inaccessible page. Terminated strings (NUL is the last byte of the buffer) must give the RFC layout; strings that
+ * fill their buffer WITHOUT a terminator are bounded by the *_buf_len fields - nothing behind the buffer may be read (the bytes written
+ * are then not compared: the result is not a well-formed header either way), no byte outside avail_out written, and the return value is
+ * 0 or the required size. */
+static void gzip_writer_guarded(void)
+{
+	static const int lens[] = { 1, 2, 20, 300 }, exl[] = { -1, 0, 1, 255 };
+	static uint8_t expect[2048];
+	char key[300];
+	uint64_t unit = 4000000;
+	for (int ni = 0; ni < 4; ni++)
+		for (int ci = 0; ci < 4; ci++)
+			for (int term = 0; term < 4; term++) /* bit 0: name terminated, bit 1: comment terminated */
+				for (int ei = 0; ei < 4; ei++)
+					for (int hcrc = 0; hcrc < 2; hcrc++)
+						for (int small = 0; small < 2; small++) {
+							if (!v_mine(unit++))
+								continue;
+							if (nfail > 30)
+								return;
+							int nl = lens[ni], cl = lens[ci];
+							char *nm = g_alloc(nl, G_END), *cm = g_alloc(cl, G_END);
+							uint8_t *ex = exl[ei] > 0 ? g_alloc(exl[ei], G_END) : (uint8_t *)nm;
+							memset(nm, 'N', nl); memset(cm, 'K', cl);
+							if (term & 1) nm[nl - 1] = 0;
+							if (term & 2) cm[cl - 1] = 0;
+							if (exl[ei] > 0) memcpy(ex, extra64k, exl[ei]);
+							size_t need = 0;
+							if (term == 3) {
+								struct rh_gzip rh = { 1, 0x01020304, 2, 3, ex, exl[ei], nm, cm, hcrc };
+								need = rh_gzip_write(expect, &rh);
+							}
+							size_t ao = small ? 12 : 10 + 2 + 255 + 301 + 301 + 2;
+							if (term == 3 && !small)
+								ao = need;
+							struct isal_zstream *s = g_alloc(sizeof *s, G_END);
+							struct isal_gzip_header *h = g_alloc(sizeof *h, G_END);
+							uint8_t *out = g_alloc(ao, G_END);
+							memset(out, 0x5A, ao);
+							uint32_t r = 12345;
+							snprintf(key, sizeof key, "isal_write_gzip_header sources at guard pages: name %d bytes %s, comment %d bytes %s, extra=%d hcrc=%d avail_out=%zu", nl, term & 1 ? "terminated" : "unterminated (fills name_buf_len)", cl,
+								 term & 2 ? "terminated" : "unterminated (fills comment_buf_len)", exl[ei], hcrc, ao);
+							if (V_TRY()) {
+								isal_deflate_init(s);
+								isal_gzip_header_init(h);
+								h->text = 1; h->time = 0x01020304; h->xflags = 2; h->os = 3; h->hcrc = hcrc;
+								if (exl[ei] >= 0) { h->extra = ex; h->extra_len = exl[ei]; h->extra_buf_len = exl[ei]; }
+								h->name = nm; h->name_buf_len = nl;
+								h->comment = cm; h->comment_buf_len = cl;
+								s->next_out = out; s->avail_out = ao;
+								r = isal_write_gzip_header(s, h);
+								V_END();
+								v_eval();
+								if (term == 3 && !small && (r != 0 || s->avail_out != 0 || memcmp(out, expect, need))) {
+									v_violation(key, "returned %u; header differs from the RFC 1952 layout", r);
+									nfail++;
+								} else if (r != 0 && (r <= ao || s->avail_out != ao || s->next_out != out)) {
+									v_violation(key, "returned %u with avail_out %zu: neither success nor a required size above the offered space with the stream untouched", r, ao);
+									nfail++;
+								} else if (r == 0 && (s->avail_out > ao || s->next_out != out + (ao - s->avail_out))) {
+									v_violation(key, "counters inconsistent after success");
+									nfail++;
+								}
+							} else {
+								v_violation(key, "fault at %s addr=%p (%s)", v_sym(v_fault_rip), (void *)v_fault_addr, v_fault_write ? "write" : "read");
+								nfail++;
+							}
+							if (g_check()) {
+								v_violation(key, "%s", g_last_damage());
+								nfail++;
+							}
+							g_reset();
+							v_count("writer_guarded_sources", 1);
+							v_nontrivial(v_mix(0x6a2d, unit));
+						}
+}
+
 static void zlib_writer(void)
 {
 	static const uint32_t ids[] = { 0, 1, 0x01020304, 0x80000000u, 0xffffffffu };
@@ -1014,6 +1092,7 @@ int main(int argc, char **argv)
 		extra64k[i] = (uint8_t)(i * 7 + 1);
 	if (!v_part || !strcmp(v_part, "writer")) {
 		gzip_writer();
+		gzip_writer_guarded();
 		if (v_shard == 0)
 			zlib_writer();
 	}
